@@ -1,10 +1,13 @@
 pub mod common;
 pub mod c02;
+pub mod c07;
+pub mod c08;
+pub mod c13;
 
 use crate::core::coord::PropDef;
 
 pub fn all() -> Vec<&'static PropDef> {
-    vec![&c02::DEF]
+    vec![&c02::DEF, &c07::DEF, &c08::DEF, &c13::DEF]
 }
 
 pub fn get(id: &str) -> Option<&'static PropDef> {
